@@ -21,7 +21,10 @@ from mc.common import Collector, make_2d, angle_diff
 ID = "C11"
 LEVEL = "exploration"
 RULE = (
-    "full product grid x (Hs, fp) x mean direction (every 45 deg) x depth x generation/dissipation pair x dE/dt variant; "
+    "full product grid x (Hs, fp) x mean direction (every 45 deg) x depth x generation/dissipation pair x dE/dt variant, "
+    "plus bimodal seas, a seam family (weakly breaking (Hs, fp) lattice x mean direction {0, 90, 180, 270, 0.001, 359.999}) "
+    "and a marginal-breaking family (40 Hs values around the onset of breaking x 2 (fp, depth) x 2 directions), the last "
+    "two without dE/dt; every member is also inverted with direction iteration; "
     "members are inverted in consecutive batches of 1,2,...,8 spectra. A case is non-trivial when its bulk dissipation is "
     "non-zero and the oracle could be decided: finite result with the reference balance evaluable on [u10-0.05, u10+0.05], "
     "or missing result with the 2..40 m/s root scan decided; distinct = distinct (grid, Hs, fp, direction, depth, pair, "
@@ -45,14 +48,27 @@ ASSUMPTIONS = [
     "non-degeneracy premise: two adjacent points of a 0.5 m/s scan of B over [2, 40] m/s with finite values of opposite "
     "sign, confirmed by bisection down to 1e-3 m/s with |B| <= 0.05 |target| at both ends (excludes jumps of the inner "
     "roughness solution); only then a missing result is a violation",
-    "direction iteration (direction_iteration=True) is not exercised: the property only fixes the reported direction "
-    "without it",
+    "direction iteration (direction_iteration=True, no dE/dt) is exercised for the clauses that still apply: u10 = 0 for "
+    "zero dissipation; a finite result closes the balance evaluated AT THE REPORTED DIRECTION (same sign-change oracle); "
+    "if the estimate without iteration is finite and the balance at the dissipation direction has a root in 2..40 m/s "
+    "the iterated estimate is finite. The reported direction itself is not constrained with iteration",
+    "marginal-breaking family: per (fp, depth) the largest Hs with exactly zero public bulk dissipation and the smallest "
+    "with non-zero dissipation are located by bisection to adjacent floats; the Hs lattice is hs+(1+x), x in {0, 34 "
+    "log-spaced values in [1e-6, 0.32]} and hs-(1-x), x in {1e-12,1e-6,1e-4,1e-2,1e-1}: bulk dissipation from exactly 0 "
+    "through 1e-70 ... 1e-8 to ordinary values. Oracle: u10 == 0 iff the public bulk dissipation is exactly 0",
+    "the seam and marginal families are run without a rate-of-change spectrum only",
+    "roots of the stress balance (single-root guard) are sign changes that survive 12 bisections with |F| <= 1e-3 rho u*^2 "
+    "(the tail stress jumps in z0 at low wind; a sign change across a jump is not a root)",
     "first guess: the equilibrium-range estimate computed inside estimate_u10_from_source_terms",
 ]
 REQUIRED_CATEGORIES = [
     "members", "zero_dissipation_u10_zero", "finite_result", "balance_checked", "balance_closed_by_sign_change",
     "direction_checked", "direction_checked_bimodal", "batch_size_1", "batch_size_8", "finite_depth", "dedt_inside", "dedt_outside",
     "pair_st4/st4", "pair_st4/st6", "root_in_2_40_and_finite",
+    "marginal_diss_zero", "marginal_0<|diss|<1e-12", "marginal_1e-12<=|diss|<1e-10", "marginal_1e-10<=|diss|<1e-8",
+    "marginal_below_1e-10_finite_result", "family_seam", "diriter_members", "diriter_finite_result",
+    "diriter_balance_checked", "diriter_mean_direction_on_the_0/360_seam", "diriter_direction_moved",
+    "diriter_zero_dissipation_u10_zero",
 ]
 
 DELTA = 0.05
@@ -102,15 +118,32 @@ def units(tier):
     return us
 
 
+# weakly breaking lattice for the direction-iteration / seam family (mean directions on and next to the 0/360 seam)
+SEAM_MEANS = [0.0, 90.0, 180.0, 270.0, 0.001, 359.999]
+SEAM_FP = {"quick": [0.09, 0.1, 0.11, 0.12], "thorough": [0.08, 0.09, 0.1, 0.11, 0.12, 0.13, 0.14, 0.15]}
+SEAM_HS = {"quick": [2.0, 2.5, 3.0, 3.5, 4.0], "thorough": [1.5 + 0.25 * k for k in range(15)]}
+# marginal-breaking family: (fp, depth) for which the onset of breaking is located, and the offsets from it
+MARGINAL_CASES = [(0.1, float("inf")), (0.15, 20.0)]
+MARGINAL_MEANS = [45.0, 0.0]
+MARGINAL_ABOVE = [0.0] + [10.0 ** k for k in np.linspace(-6.0, -0.5, 34)]   # hs = hs_onset+ * (1 + x)
+MARGINAL_BELOW = [1e-12, 1e-6, 1e-4, 1e-2, 1e-1]                            # hs = hs_onset- * (1 - x)
+
+
 def members_of(unit):
-    """the member list of a unit: (hs, fp, mean, depth, width) lattice, bimodal seas (a second JONSWAP lobe with
-    Hs/4, 2 fp, 60 degrees to the left: the only members whose dissipation-weighted direction is not fixed by
-    symmetry; marked by a negative width) and the empty spectrum (hs = 0); depth varies fastest so that every
-    batch mixes depths."""
+    """the static member list of a unit: (hs, fp, mean, depth, width, family).
+    lattice: the (hs, fp, mean, depth, width) product; bimodal: a second JONSWAP lobe with Hs/4, 2 fp, 60 degrees to
+    the left (the only members whose dissipation-weighted direction is not fixed by symmetry; negative width);
+    seam: weakly breaking seas with mean directions exactly 0/90/180/270 and +-1e-3 degrees around the 0/360 seam;
+    empty: the all-zero spectrum.  Depth varies fastest so that every batch mixes depths.  (The marginal-breaking
+    family is appended in run_unit: its Hs lattice is positioned relative to the onset of breaking, which is located
+    through the public dissipation.bulk_rate.)"""
     t = unit["tier"]
-    ms = [(hs, fp, mean, dep, w) for w in WIDTHS[t] for hs in HS[t] for fp in FP[t] for mean in MEANS for dep in DEPTHS]
-    ms += [(2.0, 0.15, mean, dep, -30.0) for mean in MEANS for dep in DEPTHS]
-    ms.append((0.0, 0.15, 0.0, float("inf"), 30.0))
+    ms = [(hs, fp, mean, dep, w, "lattice") for w in WIDTHS[t] for hs in HS[t] for fp in FP[t] for mean in MEANS
+          for dep in DEPTHS]
+    ms += [(2.0, 0.15, mean, dep, -30.0, "bimodal") for mean in MEANS for dep in DEPTHS]
+    ms += [(hs, fp, mean, float("inf"), 30.0, "seam") for fp in SEAM_FP[t] for hs in SEAM_HS[t] for mean in SEAM_MEANS]
+    ms += [(hs, fp, 0.0, 20.0, 30.0, "seam") for fp in SEAM_FP[t] for hs in SEAM_HS[t]]
+    ms.append((0.0, 0.15, 0.0, float("inf"), 30.0, "empty"))
     return ms
 
 
@@ -175,6 +208,7 @@ def run_unit(unit):
     _wi.ProgressBar = _NoProgressBar
 
     c = Collector()
+    c.MAX_LISTED = 2000  # the low-wind class (see KNOWN_FINDINGS) must not crowd other violations out of the listing
     g, pair = unit["grid"], unit["pair"]
     f, d = grid_axes(g)
     df, dd = steps(f, d)
@@ -182,14 +216,36 @@ def run_unit(unit):
     nd = len(d)
     bal = create_balance(*pair.split("/"))
     gen, dis = bal.generation, bal.dissipation
-    mem = members_of(unit)
-    n = len(mem)
-    E = np.array([member_spectrum(f, d, hs, fp, mean, w) for hs, fp, mean, _, w in mem])
-    depth = np.array([m[3] for m in mem])
-    spec_all = make_2d(f, d, E, depth=depth)
 
     def da(spec, x):
         return xarray.DataArray(np.asarray(x, dtype=float), dims=spec.dims_space_time, coords=spec.coords_space_time)
+
+    # ---- marginal-breaking family: Hs lattice positioned at the onset of breaking ------------------------------
+    def bulk_of(hs, fp, dep):
+        s1 = make_2d(f, d, member_spectrum(f, d, hs, fp, 45.0, 30.0)[None], depth=dep)
+        return float(dis.bulk_rate(s1).values[0])
+
+    mem = members_of(unit)
+    for fp, dep in MARGINAL_CASES:
+        lo, hi = 0.05, 0.08 * 9.81 / (2 * math.pi * fp ** 2)
+        if not (bulk_of(lo, fp, dep) == 0.0 and bulk_of(hi, fp, dep) < 0.0):
+            c.cat("marginal_onset_not_bracketed")
+            continue
+        for _ in range(200):
+            mid = 0.5 * (lo + hi)
+            if mid <= lo or mid >= hi:
+                break
+            if bulk_of(mid, fp, dep) == 0.0:
+                lo = mid
+            else:
+                hi = mid
+        # lo: largest located Hs with exactly zero dissipation, hi: smallest with non-zero dissipation (adjacent floats)
+        hss = [hi * (1.0 + x) for x in MARGINAL_ABOVE] + [lo * (1.0 - x) for x in MARGINAL_BELOW]
+        mem += [(hs, fp, mean, dep, 30.0, "marginal") for mean in MARGINAL_MEANS for hs in hss]
+    n = len(mem)
+    E = np.array([member_spectrum(f, d, m[0], m[1], m[2], m[4]) for m in mem])
+    depth = np.array([m[3] for m in mem])
+    spec_all = make_2d(f, d, E, depth=depth)
 
     diss = np.asarray(dis.bulk_rate(spec_all).values, dtype=float)
     mdir = np.asarray(dis.mean_direction_degrees(spec_all).values, dtype=float)
@@ -203,6 +259,237 @@ def run_unit(unit):
     refdir = np.degrees(np.arctan2(ky, kx)) % 360.0
     m0 = np.sum(E * w2[None], axis=(1, 2))
     worst = {"max_abs_root_error_estimate": 0.0}
+    for i, m in enumerate(mem):
+        if m[5] == "marginal":
+            a = abs(diss[i])
+            c.cat("marginal_diss_zero" if a == 0 else "marginal_0<|diss|<1e-12" if a < 1e-12 else
+                  "marginal_1e-12<=|diss|<1e-10" if a < 1e-10 else "marginal_1e-10<=|diss|<1e-8" if a < 1e-8 else
+                  "marginal_|diss|>=1e-8")
+
+    def mkey(key0, i):
+        hs, fp, mean, dep, w, fam = mem[i]
+        return dict(key0, hs=hs, fp=fp, mean=mean, depth=dkey(dep), width=w, family=fam)
+
+    def mtxt(i):
+        hs, fp, mean, dep, w, fam = mem[i]
+        return f"{pair} {g} {fam} Hs={hs!r} fp={fp} mean={mean} depth={dep} width={w}"
+
+    # ---- reference balance through the public API ---------------------------------------------------------
+    def balance(spec, dspec_vals, dsv, u, wdir):
+        """B(u) for every member of `spec`; NaN where not evaluable, which includes the winds at which the
+        roughness returned by the public generation.roughness() does not satisfy the stress balance it is
+        defined by (property C10; the solver can stall on a non-root): a reference built on such a roughness
+        says nothing about the inversion."""
+        uu, ww = da(spec, u), da(spec, wdir)
+        z = gen.roughness(uu, ww, spec)
+        bulk = np.asarray(gen.bulk_rate(spec, uu, ww, roughness_length=z).values, dtype=float)
+        b = bulk + dsv
+        zv = np.asarray(z.values, dtype=float)
+        tau = np.asarray(gen.stress(spec, uu, ww, roughness_length=z)["stress"].values, dtype=float)
+        with np.errstate(invalid="ignore", divide="ignore"):
+            rus2 = RHO_AIR * (KAPPA * np.asarray(u, dtype=float) / np.log(10.0 / zv)) ** 2
+            z_is_root = np.abs(rus2 - tau) <= 1e-4 * rus2
+        nbad = int(np.sum(np.isfinite(zv) & ~z_is_root))
+        if nbad:
+            c.cat("reference_roughness_not_a_root_of_the_stress_balance", nbad)
+        b = np.where(z_is_root, b, np.nan)
+        if dspec_vals is not None:
+            rate = np.asarray(gen.rate(spec, uu, ww, roughness_length=z).values, dtype=float)
+            with np.errstate(invalid="ignore"):
+                active = rate > 0.0
+            b = b - np.sum(np.where(active, dspec_vals, 0.0) * w2[None], axis=(1, 2))
+            b = np.where(np.all(np.isfinite(rate), axis=(1, 2)), b, np.nan)
+        return b
+
+    def balance_members(idx, dedt, u, wdir):
+        """balance() for the members idx (one stacked call; member by member if the stacked call raises)."""
+        idx = np.asarray(idx)
+        try:
+            return balance(make_2d(f, d, E[idx], depth=depth[idx]), None if dedt is None else dedt[idx], diss[idx], u, wdir)
+        except Exception:  # noqa  (roughness / stress may raise for some member)
+            row = np.full(len(idx), np.nan)
+            for k, i in enumerate(idx):
+                s1 = make_2d(f, d, E[[i]], depth=depth[[i]])
+                try:
+                    row[k] = balance(s1, None if dedt is None else dedt[[i]], diss[[i]], u[[k]], wdir[[k]])[0]
+                except Exception:  # noqa
+                    pass
+            return row
+
+    def stress_balance_roots(i, u, wdir):
+        """number of roots of F(z0) = rho u*^2 - tau(z0) on (e^-20, 1): sign changes between adjacent evaluable
+        points of a 200-point scan that survive 12 bisections with |F| <= 1e-3 rho u*^2 at both ends of the narrowed
+        bracket (the tail stress is discontinuous in z0 at low winds; a sign change across a jump is not a root the
+        roughness iteration could return).  Points at which stress() raises are outside the domain of F."""
+        zs = np.exp(np.linspace(-20.0, 0.0, 202)[1:-1])
+
+        def tau_of(z):
+            z = np.asarray(z, dtype=float)
+            sN = make_2d(f, d, np.broadcast_to(E[i], (len(z),) + E[i].shape).copy(), depth=np.full(len(z), depth[i]))
+            try:
+                return np.asarray(gen.stress(sN, da(sN, np.full(len(z), u)), da(sN, np.full(len(z), wdir)),
+                                             roughness_length=da(sN, z))["stress"].values, dtype=float)
+            except Exception:  # noqa  (some point is not evaluable: evaluate one at a time)
+                s1 = make_2d(f, d, E[[i]], depth=depth[[i]])
+                t = np.full(len(z), np.nan)
+                for j, z0 in enumerate(z):
+                    try:
+                        t[j] = float(gen.stress(s1, da(s1, [u]), da(s1, [wdir]),
+                                                roughness_length=da(s1, [z0]))["stress"].values[0])
+                    except Exception:  # noqa
+                        pass
+                return t
+
+        def F_of(z):
+            return RHO_AIR * (KAPPA * u / np.log(10.0 / np.asarray(z))) ** 2 - tau_of(z)
+
+        F = F_of(zs)
+        js = [j for j in range(199) if np.isfinite(F[j]) and np.isfinite(F[j + 1]) and F[j] * F[j + 1] < 0]
+        if not js:
+            return 0
+        a, b = np.log(zs[js]), np.log(zs[[j + 1 for j in js]])
+        fa, fb = F[js].copy(), F[[j + 1 for j in js]].copy()
+        for _ in range(12):
+            mid = 0.5 * (a + b)
+            fm = F_of(np.exp(mid))
+            with np.errstate(invalid="ignore"):
+                left = fm * fa > 0
+            a, fa = np.where(left, mid, a), np.where(left, fm, fa)
+            b, fb = np.where(left, b, mid), np.where(left, fb, fm)
+        ref = RHO_AIR * (KAPPA * u / np.log(10.0 / np.exp(0.5 * (a + b)))) ** 2
+        with np.errstate(invalid="ignore"):
+            return int(np.sum((np.abs(fa) <= 1e-3 * ref) & (np.abs(fb) <= 1e-3 * ref)))
+
+    OFFS = [-DELTA, -DELTA / 2, 0.0, DELTA / 2, DELTA]
+
+    def check_closure(ip, u10, wdir, dedt, key0, pre, what_dir):
+        """the sign-change oracle for the members ip (finite positive u10) at the wind direction wdir.
+        Returns the boolean array 'closed' (per member of ip)."""
+        closed = np.zeros(len(ip), dtype=bool)
+        Bs = np.array([balance_members(ip, dedt, np.maximum(u10[ip] + o, 1e-3), wdir[ip]) for o in OFFS])
+        for k, i in enumerate(ip):
+            b = Bs[:, k]
+            dep = mem[i][3]
+            if not np.all(np.isfinite(b)):
+                c.cat(pre + "balance_not_evaluable")
+                continue
+            c.cat(pre + "balance_checked")
+            c.nontriv((pre, g, pair, key0.get("dedt"), mem[i][0], mem[i][1], mem[i][2], dkey(dep), mem[i][4]))
+            if mem[i][5] == "marginal" and abs(diss[i]) < 1e-10:
+                c.cat(pre + "balance_checked_marginal_below_1e-10")
+            if 2.0 <= u10[i] <= 40.0:
+                c.cat(pre + "root_in_2_40_and_finite")
+            sign_change = (b.min() <= 0.0 <= b.max())
+            small = abs(b[2]) <= 1e-3 * abs(diss[i])
+            if sign_change:
+                closed[k] = True
+                c.cat(pre + "balance_closed_by_sign_change")
+                slope = (b[4] - b[0]) / (2 * DELTA)   # linear estimate of the distance to the root (evidence only)
+                if slope != 0:
+                    worst["max_abs_root_error_estimate"] = max(worst["max_abs_root_error_estimate"],
+                                                               min(DELTA, abs(b[2] / slope)))
+            elif small:
+                closed[k] = True
+                c.cat(pre + "balance_closed_by_small_residual")
+            else:
+                # the reference is unambiguous only if the stress balance that defines the roughness has one
+                # root at this wind (otherwise the inversion may legitimately sit on another branch)
+                nroots = stress_balance_roots(i, float(u10[i]), float(wdir[i]))
+                if nroots != 1:
+                    c.cat(pre + ("balance_open_but_roughness_ambiguous" if nroots > 1 else "balance_open_but_no_roughness_root_on_scan"))
+                    continue
+                flat = bool(np.all(np.abs(b - diss[i]) <= 1e-9 * abs(diss[i])))
+                c.violation(
+                    # u10 (one decimal) lets a known-findings entry address e.g. the low-wind class by interval
+                    # and 'flat' the stops in the part of the balance where the wind input is identically zero
+                    dict(mkey(key0, i), check=pre + "balance", u10=round(float(u10[i]), 1), flat=flat),
+                    f"u10={u10[i]:.4f} m/s does not close the balance{what_dir}: B(u10)/|dissipation| = "
+                    f"{b[2] / abs(diss[i]):+.3g}, no sign change of B on [u10-0.05, u10+0.05]"
+                    + (" (wind input is identically zero there: B = dissipation)" if flat else "")
+                    + f" [{mtxt(i)} dedt={key0.get('dedt')}]",
+                    u10=float(u10[i]), direction=float(wdir[i]), bulk_dissipation=float(diss[i]),
+                    B=[float(x) for x in b], offsets=OFFS, flat_part=flat,
+                )
+        return closed
+
+    def find_roots(im, dedt, pre):
+        """does the balance at the dissipation direction have a root in [2, 40] m/s?  Two adjacent points of a
+        0.5 m/s scan with finite values of opposite sign, narrowed by 9 bisections (< 1e-3 m/s); continuity: after
+        narrowing the bracket 512-fold |B| at its ends must have dropped well below the larger of the target and the
+        values at the ends of the 0.5 m/s bracket (a jump of the inner roughness solution would not).
+        Returns has, lo, hi, B(lo), B(hi) per member of im."""
+        us = np.arange(2.0, 40.0 + 1e-9, 0.5)
+
+        def bal_m(u):
+            return balance_members(im, dedt, u, mdir[im])
+
+        scan = np.array([bal_m(np.full(len(im), u)) for u in us])  # (nu, members)
+        lo = np.full(len(im), np.nan)
+        hi = np.full(len(im), np.nan)
+        span = np.full(len(im), 0.0)
+        for k in range(len(im)):
+            col = scan[:, k]
+            for j in range(len(us) - 1):
+                if np.isfinite(col[j]) and np.isfinite(col[j + 1]) and col[j] * col[j + 1] < 0:
+                    lo[k], hi[k] = us[j], us[j + 1]
+                    span[k] = max(abs(col[j]), abs(col[j + 1]))
+                    break
+        has = np.isfinite(lo)
+        found = has.copy()
+        blo = np.full(len(im), np.nan)
+        bhi = np.full(len(im), np.nan)
+        if np.any(has):
+            l = np.where(has, lo, 5.0)
+            h = np.where(has, hi, 5.5)
+            blo, bhi = bal_m(l), bal_m(h)
+            for _ in range(9):  # 0.5 / 2^9 < 1e-3
+                mid = 0.5 * (l + h)
+                bm = bal_m(mid)
+                with np.errstate(invalid="ignore"):
+                    left = np.sign(bm) == np.sign(blo)
+                has &= np.isfinite(bm)
+                l = np.where(left, mid, l)
+                blo = np.where(left, bm, blo)
+                h = np.where(left, h, mid)
+                bhi = np.where(left, bhi, bm)
+            lo, hi = l, h
+        for k, i in enumerate(im):
+            if not has[k]:
+                c.cat(pre + ("_no_root_shown_in_2_40" if not found[k] else "_root_bracket_not_evaluable"))
+                continue
+            scale = max(abs(diss[i]) * 1.1, span[k])
+            if not (abs(blo[k]) <= 0.05 * scale and abs(bhi[k]) <= 0.05 * scale):
+                c.cat(pre + "_sign_change_is_a_jump")
+                has[k] = False
+        return has, lo, hi, blo, bhi
+
+    def invert(dedt, iteration, key0, act):
+        """the inversion of the members act in consecutive batches of 1..8 (others: marked failed/not run)."""
+        u10 = np.full(n, np.nan)
+        rdir = np.full(n, np.nan)
+        failed = np.ones(n, dtype=bool)
+        failed[act] = False
+        start, size = 0, 1
+        while start < len(act):
+            idx = [int(j) for j in act[start:start + size]]
+            c.cat(f"batch_size_{len(idx)}")
+            sb = make_2d(f, d, E[idx], depth=depth[idx])
+            db = None if dedt is None else make_2d(f, d, dedt[idx], depth=depth[idx])
+            try:
+                r = estimate_u10_from_source_terms(sb, bal, time_derivative_spectrum=db, direction_iteration=iteration)
+                u10[idx] = np.asarray(r["u10"].values, dtype=float)
+                rdir[idx] = np.asarray(r["direction"].values, dtype=float)
+            except Exception as exc:  # noqa
+                failed[idx] = True
+                c.violation(dict(key0, check="raises", direction_iteration=iteration, members=[list(mem[i]) for i in idx]),
+                            f"estimate_u10_from_source_terms raised {type(exc).__name__}: {exc}",
+                            traceback=traceback.format_exc()[-1500:])
+            start += len(idx)
+            size = size % 8 + 1
+        return u10, rdir, failed
+
+    closed_plain = np.zeros(n, dtype=bool)   # variant 'none', no iteration: finite result that closes the balance
+    u10_plain = np.full(n, np.nan)
 
     for variant in unit["variants"]:
         # ---- the rate-of-change spectrum of this variant --------------------------------------
@@ -214,104 +501,36 @@ def run_unit(unit):
             if variant.startswith("out"):
                 shape = np.roll(shape, nd // 2, axis=2)
             dedt = amp[:, None, None] * shape
-            c.cat("dedt_inside" if variant.startswith("in") else "dedt_outside", n)
-
-        # ---- inversion in batches of 1..8 -----------------------------------------------------
-        u10 = np.full(n, np.nan)
-        rdir = np.full(n, np.nan)
-        failed = np.zeros(n, dtype=bool)
-        start, size = 0, 1
-        while start < n:
-            idx = list(range(start, min(start + size, n)))
-            c.cat(f"batch_size_{len(idx)}")
-            sb = make_2d(f, d, E[idx], depth=depth[idx])
-            db = None if dedt is None else make_2d(f, d, dedt[idx], depth=depth[idx])
-            try:
-                r = estimate_u10_from_source_terms(sb, bal, time_derivative_spectrum=db, direction_iteration=False)
-                u10[idx] = np.asarray(r["u10"].values, dtype=float)
-                rdir[idx] = np.asarray(r["direction"].values, dtype=float)
-            except Exception as exc:  # noqa
-                failed[idx] = True
-                c.violation({"grid": g, "pair": pair, "dedt": variant, "check": "raises",
-                             "members": [list(mem[i]) for i in idx]},
-                            f"estimate_u10_from_source_terms raised {type(exc).__name__}: {exc}",
-                            traceback=traceback.format_exc()[-1500:])
-            start += len(idx)
-            size = size % 8 + 1
-
-        # ---- reference balance through the public API -------------------------------------------
-        def balance(spec, dspec_vals, dsv, u, wdir):
-            """B(u) for every member of `spec`; NaN where not evaluable, which includes the winds at which the
-            roughness returned by the public generation.roughness() does not satisfy the stress balance it is
-            defined by (property C10; the solver can stall on a non-root): a reference built on such a roughness
-            says nothing about the inversion."""
-            uu, ww = da(spec, u), da(spec, wdir)
-            z = gen.roughness(uu, ww, spec)
-            bulk = np.asarray(gen.bulk_rate(spec, uu, ww, roughness_length=z).values, dtype=float)
-            b = bulk + dsv
-            zv = np.asarray(z.values, dtype=float)
-            tau = np.asarray(gen.stress(spec, uu, ww, roughness_length=z)["stress"].values, dtype=float)
-            with np.errstate(invalid="ignore", divide="ignore"):
-                rus2 = RHO_AIR * (KAPPA * np.asarray(u, dtype=float) / np.log(10.0 / zv)) ** 2
-                z_is_root = np.abs(rus2 - tau) <= 1e-4 * rus2
-            nbad = int(np.sum(np.isfinite(zv) & ~z_is_root))
-            if nbad:
-                c.cat("reference_roughness_not_a_root_of_the_stress_balance", nbad)
-            b = np.where(z_is_root, b, np.nan)
-            if dspec_vals is not None:
-                rate = np.asarray(gen.rate(spec, uu, ww, roughness_length=z).values, dtype=float)
-                with np.errstate(invalid="ignore"):
-                    active = rate > 0.0
-                b = b - np.sum(np.where(active, dspec_vals, 0.0) * w2[None], axis=(1, 2))
-                b = np.where(np.all(np.isfinite(rate), axis=(1, 2)), b, np.nan)
-            return b
-
-        def stress_balance_roots(i, u, wdir):
-            """number of sign changes of rho u*^2 - tau(z0) between adjacent evaluable points of a 200-point scan of
-            (e^-20, 1).  Points at which stress() raises are outside the domain of the balance function: the
-            library's roughness iteration cannot settle there either (it would raise), so they host no admissible
-            root."""
-            zs = np.exp(np.linspace(-20.0, 0.0, 202)[1:-1])
-            sN = make_2d(f, d, np.broadcast_to(E[i], (200,) + E[i].shape).copy(), depth=np.full(200, depth[i]))
-            try:
-                tau = np.asarray(gen.stress(sN, da(sN, np.full(200, u)), da(sN, np.full(200, wdir)),
-                                            roughness_length=da(sN, zs))["stress"].values, dtype=float)
-            except Exception:  # noqa  (some point is not evaluable: evaluate one at a time)
-                s1 = make_2d(f, d, E[[i]], depth=depth[[i]])
-                tau = np.full(200, np.nan)
-                for j, z0 in enumerate(zs):
-                    try:
-                        tau[j] = float(gen.stress(s1, da(s1, [u]), da(s1, [wdir]),
-                                                  roughness_length=da(s1, [z0]))["stress"].values[0])
-                    except Exception:  # noqa
-                        pass
-            F = RHO_AIR * (KAPPA * u / np.log(10.0 / zs)) ** 2 - tau
-            n = 0
-            for j in range(199):
-                if np.isfinite(F[j]) and np.isfinite(F[j + 1]) and F[j] * F[j + 1] < 0:
-                    n += 1
-            return n
+            c.cat("dedt_inside" if variant.startswith("in") else "dedt_outside")
 
         key0 = {"grid": g, "pair": pair, "dedt": variant}
-        for i, (hs, fp, mean, dep, w) in enumerate(mem):
+        # the seam and marginal-breaking families are run without a rate-of-change spectrum only
+        act = np.array([i for i, m in enumerate(mem) if variant == "none" or m[5] in ("lattice", "bimodal", "empty")])
+        u10, rdir, failed = invert(dedt, False, key0, act)
+        if variant == "none":
+            u10_plain = u10.copy()
+
+        for i in act:
+            m = mem[i]
             c.evaluations += 1
             c.cat("members")
             c.cat("pair_" + pair)
-            c.case([variant, hs, fp, mean, dkey(dep), w])
-            if math.isfinite(dep):
+            c.cat("family_" + m[5])
+            c.case([variant, m[0], m[1], m[2], dkey(m[3]), m[4], m[5]])
+            if math.isfinite(m[3]):
                 c.cat("finite_depth")
 
         ok = ~failed
         pos = ok & np.isfinite(u10) & (u10 > 0) & (diss != 0.0)
         for i in np.nonzero(ok)[0]:
-            hs, fp, mean, dep, w = mem[i]
-            key = dict(key0, hs=hs, fp=fp, mean=mean, depth=dkey(dep), width=w)
+            hs, fp, mean, dep, w, fam = mem[i]
+            key = mkey(key0, i)
             if diss[i] == 0.0:
                 if u10[i] == 0.0:
                     c.cat("zero_dissipation_u10_zero")
                 else:
                     c.violation(dict(key, check="zero_dissipation"),
-                                f"bulk dissipation is exactly 0 but u10={u10[i]!r} [{pair} Hs={hs} fp={fp} mean={mean} depth={dep} width={w}]")
+                                f"bulk dissipation is exactly 0 but u10={u10[i]!r} [{mtxt(i)}]")
                 continue
             # direction (well conditioned: dissipation is non-zero)
             c.cat("direction_checked")
@@ -326,152 +545,103 @@ def run_unit(unit):
                     and float(angle_diff(rdir[i], refdir[i])) <= tol_ref):
                 c.violation(dict(key, check="direction"),
                             f"reported direction {rdir[i]!r}: dissipation.mean_direction_degrees gives {mdir[i]!r}, the "
-                            f"reference weighted direction is {refdir[i]!r}"
-                            + f" [{pair} Hs={hs} fp={fp} mean={mean} depth={dep} width={w} dedt={variant}]")
+                            f"reference weighted direction is {refdir[i]!r} [{mtxt(i)} dedt={variant}]")
             if u10[i] != u10[i]:
                 c.cat("missing_result")
                 continue
             if not (math.isfinite(u10[i]) and u10[i] > 0):
                 c.violation(dict(key, check="positive"),
-                            f"u10={u10[i]!r} is neither missing nor positive although the bulk dissipation is {diss[i]:.3e}")
+                            f"u10={u10[i]!r} is neither missing nor positive although the bulk dissipation is "
+                            f"{diss[i]:.3e} (not zero) [{mtxt(i)} dedt={variant}]")
                 continue
             c.cat("finite_result")
+            if fam == "marginal" and abs(diss[i]) < 1e-10:
+                c.cat("marginal_below_1e-10_finite_result")
 
         # balance at u10 + {-1,-1/2,0,1/2,1} delta for all members with a positive finite result at once
         if np.any(pos):
             ip = np.nonzero(pos)[0]
-            sp = make_2d(f, d, E[ip], depth=depth[ip])
-            dv = None if dedt is None else dedt[ip]
-            offs = [-DELTA, -DELTA / 2, 0.0, DELTA / 2, DELTA]
-            Bs = []
-            for o in offs:
-                uu = np.maximum(u10[ip] + o, 1e-3)
-                try:
-                    Bs.append(balance(sp, dv, diss[ip], uu, rdir[ip]))
-                except Exception:  # noqa  (roughness / stress may raise for some member: evaluate singly)
-                    row = np.full(len(ip), np.nan)
-                    for k, i in enumerate(ip):
-                        s1 = make_2d(f, d, E[[i]], depth=depth[[i]])
-                        try:
-                            row[k] = balance(s1, None if dedt is None else dedt[[i]], diss[[i]], uu[[k]], rdir[[i]])[0]
-                        except Exception:  # noqa
-                            pass
-                    Bs.append(row)
-            Bs = np.array(Bs)  # (5, members)
-            for k, i in enumerate(ip):
-                hs, fp, mean, dep, w = mem[i]
-                key = dict(key0, hs=hs, fp=fp, mean=mean, depth=dkey(dep), width=w)
-                b = Bs[:, k]
-                if not np.all(np.isfinite(b)):
-                    c.cat("balance_not_evaluable")
-                    continue
-                c.cat("balance_checked")
-                c.nontriv((g, pair, dkey(dep), variant, hs, fp, mean, w))
-                if 2.0 <= u10[i] <= 40.0:
-                    c.cat("root_in_2_40_and_finite")
-                sign_change = (b.min() <= 0.0 <= b.max())
-                small = abs(b[2]) <= 1e-3 * abs(diss[i])
-                if sign_change:
-                    c.cat("balance_closed_by_sign_change")
-                    # linear estimate of the distance to the root (evidence only)
-                    slope = (b[4] - b[0]) / (2 * DELTA)
-                    if slope != 0:
-                        worst["max_abs_root_error_estimate"] = max(worst["max_abs_root_error_estimate"],
-                                                                   min(DELTA, abs(b[2] / slope)))
-                elif small:
-                    c.cat("balance_closed_by_small_residual")
-                else:
-                    # the reference is unambiguous only if the stress balance that defines the roughness has one
-                    # root at this wind (otherwise the inversion may legitimately sit on another branch)
-                    nroots = stress_balance_roots(i, float(u10[i]), float(rdir[i]))
-                    if nroots != 1:
-                        c.cat("balance_open_but_roughness_ambiguous" if nroots > 1 else "balance_open_but_no_roughness_root_on_scan")
-                        continue
-                    flat = bool(np.all(np.abs(b - diss[i]) <= 1e-9 * abs(diss[i])))
-                    c.violation(
-                        # u10 (one decimal) lets a known-findings entry address e.g. the low-wind class by interval
-                        dict(key, check="balance", u10=round(float(u10[i]), 1)),
-                        f"u10={u10[i]:.4f} m/s does not close the balance: B(u10)/|dissipation| = {b[2] / abs(diss[i]):+.3g}, no "
-                        f"sign change of B on [u10-0.05, u10+0.05]"
-                        + (" (wind input is identically zero there: B = dissipation)" if flat else "")
-                        + f" [{pair} {g} Hs={hs} fp={fp} mean={mean} depth={dep} width={w} dedt={variant}]",
-                        u10=float(u10[i]), direction=float(rdir[i]), bulk_dissipation=float(diss[i]),
-                        B=[float(x) for x in b], offsets=offs, flat_part=flat,
-                    )
+            closed = check_closure(ip, u10, rdir, dedt, key0, "", "")
+            if variant == "none":
+                closed_plain[ip] = closed
 
         # non-degeneracy: members with non-zero dissipation and a missing result
         miss = ok & (diss != 0.0) & np.isnan(u10)
         if np.any(miss):
             im = np.nonzero(miss)[0]
-            sm = make_2d(f, d, E[im], depth=depth[im])
-            dv = None if dedt is None else dedt[im]
-            us = np.arange(2.0, 40.0 + 1e-9, 0.5)
-
-            def bal_m(u):
-                try:
-                    return balance(sm, dv, diss[im], u, mdir[im])
-                except Exception:  # noqa
-                    row = np.full(len(im), np.nan)
-                    for k, i in enumerate(im):
-                        s1 = make_2d(f, d, E[[i]], depth=depth[[i]])
-                        try:
-                            row[k] = balance(s1, None if dedt is None else dedt[[i]], diss[[i]], u[[k]], mdir[[i]])[0]
-                        except Exception:  # noqa
-                            pass
-                    return row
-
-            scan = np.array([bal_m(np.full(len(im), u)) for u in us])  # (nu, members)
-            lo = np.full(len(im), np.nan)
-            hi = np.full(len(im), np.nan)
-            for k in range(len(im)):
-                col = scan[:, k]
-                for j in range(len(us) - 1):
-                    if np.isfinite(col[j]) and np.isfinite(col[j + 1]) and col[j] * col[j + 1] < 0:
-                        lo[k], hi[k] = us[j], us[j + 1]
-                        break
-            has = np.isfinite(lo)
-            blo = np.full(len(im), np.nan)
-            bhi = np.full(len(im), np.nan)
-            if np.any(has):
-                l = np.where(has, lo, 5.0)
-                h = np.where(has, hi, 5.5)
-                blo, bhi = bal_m(l), bal_m(h)
-                for _ in range(9):  # 0.5 / 2^9 < 1e-3
-                    mid = 0.5 * (l + h)
-                    bm = bal_m(mid)
-                    with np.errstate(invalid="ignore"):
-                        left = np.sign(bm) == np.sign(blo)
-                    nanm = ~np.isfinite(bm)
-                    has &= ~nanm
-                    l = np.where(left, mid, l)
-                    blo = np.where(left, bm, blo)
-                    h = np.where(left, h, mid)
-                    bhi = np.where(left, bhi, bm)
-                lo, hi = l, h
+            has, lo, hi, blo, bhi = find_roots(im, dedt, "missing_result")
             for k, i in enumerate(im):
-                hs, fp, mean, dep, w = mem[i]
-                key = dict(key0, hs=hs, fp=fp, mean=mean, depth=dkey(dep), width=w)
                 if not has[k]:
-                    c.cat("missing_result_no_root_shown_in_2_40")
-                    continue
-                target = abs(diss[i]) * 1.1
-                if not (abs(blo[k]) <= 0.05 * target and abs(bhi[k]) <= 0.05 * target):
-                    c.cat("missing_result_sign_change_is_a_jump")
                     continue
                 c.cat("missing_result_root_in_2_40")
-                c.nontriv((g, pair, dkey(dep), variant, hs, fp, mean, w))
+                c.nontriv(("", g, pair, variant, mem[i][0], mem[i][1], mem[i][2], dkey(mem[i][3]), mem[i][4]))
                 c.violation(
-                    dict(key, check="degenerate", root=round(float(0.5 * (lo[k] + hi[k])), 1)),
+                    dict(mkey(key0, i), check="degenerate", root=round(float(0.5 * (lo[k] + hi[k])), 1)),
                     f"u10 is missing (NaN) although the balance has a root at {0.5 * (lo[k] + hi[k]):.3f} m/s "
-                    f"[{pair} {g} Hs={hs} fp={fp} mean={mean} depth={dep} width={w} dedt={variant}]",
+                    f"[{mtxt(i)} dedt={variant}]",
                     root_bracket=[float(lo[k]), float(hi[k])], B_at_bracket=[float(blo[k]), float(bhi[k])],
                     bulk_dissipation=float(diss[i]),
                 )
         if len(c.samples) < 2:
             j = int(np.nonzero(pos)[0][0]) if np.any(pos) else 0
-            c.sample({"grid": g, "pair": pair, "depth": dkey(mem[j][3]), "dedt": variant, "hs": mem[j][0],
-                      "fp": mem[j][1], "mean": mem[j][2], "width": mem[j][4], "u10": float(u10[j]), "direction": float(rdir[j]),
-                      "bulk_dissipation": float(diss[j])})
+            c.sample(dict(mkey(key0, j), u10=float(u10[j]), direction=float(rdir[j]), bulk_dissipation=float(diss[j])))
+
+    # ---- direction iteration (no dE/dt): the clauses that still apply ---------------------------------------
+    if "none" in unit["variants"]:
+        key0 = {"grid": g, "pair": pair, "dedt": "none", "direction_iteration": True}
+        u_it, d_it, failed = invert(None, True, key0, np.arange(n))
+        ok = ~failed
+        for i in np.nonzero(ok)[0]:
+            c.evaluations += 1
+            c.cat("diriter_members")
+            c.case(["diriter", mem[i][0], mem[i][1], mem[i][2], dkey(mem[i][3]), mem[i][4], mem[i][5]])
+            key = mkey(key0, i)
+            if diss[i] == 0.0:
+                if u_it[i] == 0.0:
+                    c.cat("diriter_zero_dissipation_u10_zero")
+                else:
+                    c.violation(dict(key, check="diriter_zero_dissipation"),
+                                f"direction iteration: bulk dissipation is exactly 0 but u10={u_it[i]!r} [{mtxt(i)}]")
+                continue
+            if mem[i][2] in (0.0, 0.001, 359.999):
+                c.cat("diriter_mean_direction_on_the_0/360_seam")
+            if u_it[i] != u_it[i]:
+                c.cat("diriter_missing_result")
+                continue
+            if not (math.isfinite(u_it[i]) and u_it[i] > 0 and math.isfinite(d_it[i])):
+                c.violation(dict(key, check="diriter_positive"),
+                            f"direction iteration: u10={u_it[i]!r}, direction={d_it[i]!r} is neither missing nor a "
+                            f"positive speed with a direction [{mtxt(i)}]")
+                continue
+            c.cat("diriter_finite_result")
+            if float(angle_diff(d_it[i], mdir[i])) > 1e-6:
+                c.cat("diriter_direction_moved")
+        # non-degeneracy with iteration: the plain estimate is finite and the balance at the dissipation direction has
+        # a root in 2..40 m/s (the plain estimate closes it there, or the scan shows one) -> the iterated estimate
+        # must be finite too
+        missi = ok & (diss != 0.0) & np.isnan(u_it) & np.isfinite(u10_plain)
+        if np.any(missi):
+            im = np.nonzero(missi)[0]
+            known = closed_plain[im] & (u10_plain[im] >= 2.0) & (u10_plain[im] <= 40.0)
+            has = known.copy()
+            root = u10_plain[im].copy()
+            if np.any(~known):
+                sub = im[~known]
+                h2, lo2, hi2, _, _ = find_roots(sub, None, "diriter_missing_result")
+                has[~known] = h2
+                root[~known] = 0.5 * (lo2 + hi2)
+            for k, i in enumerate(im):
+                if not has[k]:
+                    continue
+                c.nontriv(("diriter", g, pair, mem[i][0], mem[i][1], mem[i][2], dkey(mem[i][3]), mem[i][4]))
+                c.violation(dict(mkey(key0, i), check="diriter_degenerate", root=round(float(root[k]), 1)),
+                            f"direction iteration: u10 is missing (NaN, reported direction {d_it[i]!r}) although the "
+                            f"estimate without iteration is {u10_plain[i]:.3f} m/s and the balance at the dissipation "
+                            f"direction {mdir[i]!r} has a root at {root[k]:.3f} m/s [{mtxt(i)}]",
+                            u10_without_iteration=float(u10_plain[i]), reported_direction=float(d_it[i]))
+        pos = ok & np.isfinite(u_it) & (u_it > 0) & np.isfinite(d_it) & (diss != 0.0)
+        if np.any(pos):
+            check_closure(np.nonzero(pos)[0], u_it, d_it, None, key0, "diriter_", " at the reported direction")
     r = c.result()
     r["stats"] = worst
     return r
